@@ -19,11 +19,11 @@
 //! log-sum-exp.
 
 use linfa::prelude::*;
-use linfa::{DatasetBase, Float};
+use linfa::{DatasetBase, Float, MultiTargetModel};
 use linfa_clustering::{GaussianMixtureModel, GmmError, GmmInitMethod, GmmParams};
 use lvmc_core::refmath::{self, Mat};
 use lvmc_core::{guarded, json, par_sweep, Ctx, Level, Value, Violation};
-use ndarray::{s, Array2, ArrayBase, Data, Ix2, ShapeBuilder};
+use ndarray::{s, Array1, Array2, ArrayBase, ArrayView2, Data, Ix2, ShapeBuilder};
 use rand::{RngCore, SeedableRng};
 use rand_xoshiro::Xoshiro256Plus;
 use serde::{Deserialize, Serialize};
@@ -899,6 +899,198 @@ fn posterior(wl: &[f64]) -> Vec<f64> {
 }
 
 // ------------------------------------------------------------------------------------------
+// calling forms of predict (routes through the blanket impls of the core crate)
+// ------------------------------------------------------------------------------------------
+
+/// Every calling form of `predict` on the same batch; each label must be one of maximal probability
+/// in the corresponding `predict_proba` row (the statement), for the full query batch, a one-row and a
+/// two-row batch.
+fn run_forms(case: &Case, cfg: &Cfg, cnt: &mut Cnt, viols: &mut Vec<Violation>) -> bool {
+    let cj = |at: Value| single_case_json(case, cfg, at);
+    let cfg_txt = cfg_text(case, cfg);
+    let (n, d) = (case.data.len(), case.data[0].len());
+    let k = case.n_clusters;
+    cnt.add("fits", 1);
+    let model = match do_fit::<f64>(case, cfg, cfg.max_iter) {
+        Err(p) => {
+            viols.push(Violation::new("gmm.fit.panic", format!("fit panicked ({}): {}", cfg_txt, p), cj(json!({"phase": "fit"}))));
+            return false;
+        }
+        Ok(Err(e)) => {
+            cnt.add(&format!("fit_err.{}", error_kind(&e)), 1);
+            return false;
+        }
+        Ok(Ok(m)) => m,
+    };
+    cnt.add("fits_ok", 1);
+    // a second, different mixture for the two-member MultiTargetModel
+    let mut case2 = case.clone();
+    case2.n_clusters = k % 3 + 1;
+    let cfg2 = Cfg { seed: cfg.seed + 7, ..cfg.clone() };
+    let model2 = match do_fit::<f64>(&case2, &cfg2, cfg.max_iter) {
+        Ok(Ok(m)) => Some(m),
+        _ => None,
+    };
+    let mu = model.means();
+    let cov = model.covariances();
+    let mut qs: Vec<Vec<f64>> = case.data.clone();
+    for c in 0..k {
+        qs.push(mu.row(c).to_vec());
+        for s in [10.0, 39.0] {
+            for (_, u) in dirs(d) {
+                qs.push((0..d).map(|j| mu[(c, j)] + s * cov[(c, j, j)].abs().sqrt() * u[j]).collect());
+            }
+        }
+    }
+    let full = Array2::from_shape_fn((qs.len(), d), |(i, j)| qs[i][j]);
+    let batches: Vec<(&str, Array2<f64>)> = vec![
+        ("full", full.clone()),
+        ("one_row", full.slice(s![n / 2..n / 2 + 1, ..]).to_owned()),
+        ("two_rows", ndarray::stack![ndarray::Axis(0), full.row(0), full.row(n - 1)]),
+    ];
+    for (bname, b) in &batches {
+        let nb = b.nrows();
+        let proba = match guarded(|| model.predict_proba(b)) {
+            Ok(p) => p,
+            Err(p) => {
+                viols.push(Violation::new("gmm.predict_proba.panic", format!("{}: predict_proba on the {} batch panicked: {}", cfg_txt, bname, p), cj(json!({"phase": "forms", "batch": bname}))));
+                continue;
+            }
+        };
+        let proba2 = model2.as_ref().map(|m| m.predict_proba(b));
+        let mut check = |form: &str, labels: Result<Vec<usize>, String>, pr: &Array2<f64>, viols: &mut Vec<Violation>, cnt: &mut Cnt| {
+            cnt.add("form_calls", 1);
+            let at = cj(json!({"phase": "forms", "batch": bname, "form": form}));
+            let labels = match labels {
+                Ok(l) => l,
+                Err(p) => {
+                    viols.push(Violation::new(format!("gmm.predict.form_{}.panic", form), format!("{}: {} batch ({} rows): panicked: {}", cfg_txt, bname, nb, p), at));
+                    return;
+                }
+            };
+            if labels.len() != nb {
+                viols.push(Violation::new(format!("gmm.predict.form_{}.wrong_length", form), format!("{}: {} batch: {} labels for {} rows", cfg_txt, bname, labels.len(), nb), at));
+                return;
+            }
+            for i in 0..nb {
+                cnt.add("form_labels_checked", 1);
+                let row = pr.row(i);
+                let rmax = row.iter().cloned().fold(f64::NEG_INFINITY, f64::max);
+                let l = labels[i];
+                if !(l < row.len() && row[l] >= rmax - 1e-12) {
+                    viols.push(Violation::new(
+                        format!("gmm.predict.form_{}.not_argmax_of_predict_proba_row", form),
+                        format!("{}: {} batch ({} rows), calling form {}: row {} = {:?} is labelled {} but predict_proba gives {:?} (all labels {:?})", cfg_txt, bname, nb, form, i, b.row(i).to_vec(), l, row.to_vec(), &labels[..nb.min(12)]),
+                        at,
+                    ));
+                    return;
+                }
+            }
+        };
+        let same_records = |form: &str, r: ArrayView2<f64>, viols: &mut Vec<Violation>| {
+            if r != b.view() {
+                viols.push(Violation::new(format!("gmm.predict.form_{}.records_changed", form), format!("{}: {} batch: the records of the returned dataset differ from the input", cfg_txt, bname), cj(json!({"phase": "forms", "batch": bname, "form": form}))));
+            }
+        };
+        // &array, owned array, array view
+        check("ref_array", guarded(|| model.predict(b).to_vec()), &proba, viols, cnt);
+        match guarded(|| model.predict(b.clone())) {
+            Ok(ds) => {
+                same_records("owned_array", ds.records().view(), viols);
+                check("owned_array", Ok(ds.targets().to_vec()), &proba, viols, cnt);
+            }
+            Err(p) => check("owned_array", Err(p), &proba, viols, cnt),
+        }
+        match guarded(|| model.predict(b.view())) {
+            Ok(ds) => {
+                same_records("array_view", ds.records().view(), viols);
+                check("array_view", Ok(ds.targets().to_vec()), &proba, viols, cnt);
+            }
+            Err(p) => check("array_view", Err(p), &proba, viols, cnt),
+        }
+        // &dataset, owned dataset (without and with previous targets), dataset view, &dataset view
+        let ds0 = DatasetBase::from(b.clone());
+        check("ref_dataset", guarded(|| model.predict(&ds0).to_vec()), &proba, viols, cnt);
+        match guarded(|| model.predict(DatasetBase::from(b.clone()))) {
+            Ok(ds) => {
+                same_records("owned_dataset", ds.records().view(), viols);
+                check("owned_dataset", Ok(ds.targets().to_vec()), &proba, viols, cnt);
+            }
+            Err(p) => check("owned_dataset", Err(p), &proba, viols, cnt),
+        }
+        match guarded(|| model.predict(DatasetBase::new(b.clone(), Array1::<usize>::from_elem(nb, 99)))) {
+            Ok(ds) => {
+                same_records("owned_dataset_with_old_targets", ds.records().view(), viols);
+                check("owned_dataset_with_old_targets", Ok(ds.targets().to_vec()), &proba, viols, cnt);
+            }
+            Err(p) => check("owned_dataset_with_old_targets", Err(p), &proba, viols, cnt),
+        }
+        match guarded(|| model.predict(DatasetBase::from(b.view()))) {
+            Ok(ds) => {
+                same_records("dataset_of_view", ds.records().view(), viols);
+                check("dataset_of_view", Ok(ds.targets().to_vec()), &proba, viols, cnt);
+            }
+            Err(p) => check("dataset_of_view", Err(p), &proba, viols, cnt),
+        }
+        let dsv = DatasetBase::from(b.view());
+        check("ref_dataset_of_view", guarded(|| model.predict(&dsv).to_vec()), &proba, viols, cnt);
+        // predict_inplace into a poisoned buffer and into a buffer holding the labels of another batch
+        check(
+            "inplace_poisoned_buffer",
+            guarded(|| {
+                let mut buf = Array1::from_elem(nb, usize::MAX);
+                model.predict_inplace(b, &mut buf);
+                buf.to_vec()
+            }),
+            &proba,
+            viols,
+            cnt,
+        );
+        check(
+            "inplace_reused_buffer",
+            guarded(|| {
+                let rev = b.slice(s![..;-1, ..]).to_owned();
+                let mut buf = model.predict(&rev);
+                model.predict_inplace(b, &mut buf);
+                buf.to_vec()
+            }),
+            &proba,
+            viols,
+            cnt,
+        );
+        // MultiTargetModel with exactly one member (both constructors) and with two members
+        let one_a: MultiTargetModel<Array2<f64>, usize> = std::iter::once(model.clone()).collect();
+        check("multi_target_one_member_from_iter", guarded(|| { let t: Array2<usize> = one_a.predict(b); if t.ncols() == 1 { t.column(0).to_vec() } else { vec![] } }), &proba, viols, cnt);
+        let one_b: MultiTargetModel<Array2<f64>, usize> = MultiTargetModel::new(vec![Box::new(model.clone())]);
+        check("multi_target_one_member_new", guarded(|| { let t: Array2<usize> = one_b.predict(b); if t.ncols() == 1 { t.column(0).to_vec() } else { vec![] } }), &proba, viols, cnt);
+        check(
+            "multi_target_one_member_inplace_poisoned",
+            guarded(|| {
+                let mut t = Array2::from_elem((nb, 1), usize::MAX);
+                one_b.predict_inplace(b, &mut t);
+                t.column(0).to_vec()
+            }),
+            &proba,
+            viols,
+            cnt,
+        );
+        if let (Some(m2), Some(p2)) = (&model2, &proba2) {
+            let two: MultiTargetModel<Array2<f64>, usize> = vec![model.clone(), m2.clone()].into_iter().collect();
+            let t = guarded(|| { let t: Array2<usize> = two.predict(b); t });
+            match t {
+                Ok(t) if t.ncols() == 2 => {
+                    check("multi_target_two_members_first", Ok(t.column(0).to_vec()), &proba, viols, cnt);
+                    check("multi_target_two_members_second", Ok(t.column(1).to_vec()), p2, viols, cnt);
+                }
+                Ok(t) => check("multi_target_two_members_first", Ok(vec![0; t.ncols() + nb + 1]), &proba, viols, cnt),
+                Err(p) => check("multi_target_two_members_first", Err(p), &proba, viols, cnt),
+            }
+        }
+    }
+    true
+}
+
+// ------------------------------------------------------------------------------------------
 // builder history: the same logical parameter set built in every order of the setters
 // ------------------------------------------------------------------------------------------
 
@@ -1059,7 +1251,7 @@ fn run_builder(case: &Case, cfg: &Cfg, cnt: &mut Cnt, viols: &mut Vec<Violation>
     true
 }
 
-const LAYOUTS: [&str; 4] = ["f_order_owned", "transposed_view_of_feature_major", "reversed_rows_view_of_reversed_copy", "every_second_row_view_nan_filler"];
+const LAYOUTS: [&str; 5] = ["f_order_owned", "transposed_view_of_feature_major", "reversed_rows_view_of_reversed_copy", "reversed_feature_axis_view_of_reversed_copy", "every_second_row_view_nan_filler"];
 
 /// Calls `f` with the logical matrix `m` stored in the named memory layout.
 fn with_layout<F: Float, R>(m: &Array2<F>, lay: &str, f: &mut dyn FnMut(ndarray::ArrayView2<F>) -> R) -> R {
@@ -1072,6 +1264,11 @@ fn with_layout<F: Float, R>(m: &Array2<F>, lay: &str, f: &mut dyn FnMut(ndarray:
         "reversed_rows_view_of_reversed_copy" => {
             let r = Array2::from_shape_fn((n, d), |(i, j)| m[(n - 1 - i, j)]);
             f(r.slice(s![..;-1, ..]))
+        }
+        "reversed_feature_axis_view_of_reversed_copy" => {
+            // every row is 'contiguous' in memory order but runs backwards
+            let r = Array2::from_shape_fn((n, d), |(i, j)| m[(i, d - 1 - j)]);
+            f(r.slice(s![.., ..;-1]))
         }
         "every_second_row_view_nan_filler" => {
             let big = Array2::from_shape_fn((2 * n, d), |(i, j)| if i % 2 == 0 { m[(i / 2, j)] } else { F::nan() });
@@ -1313,6 +1510,7 @@ fn run_case(case: &Case, viols: &mut Vec<Violation>) -> (Cnt, u64, u64) {
         let nt = match (case.kind.as_str(), case.float.as_str()) {
             ("ladder", _) => run_ladder(case, &cfg, &mut cnt, viols),
             ("builder", _) => run_builder(case, &cfg, &mut cnt, viols),
+            ("forms", _) => run_forms(case, &cfg, &mut cnt, viols),
             ("layout", "f32") => run_layout::<f32>(case, &cfg, &TOLS_F32, &mut cnt, viols),
             ("layout", _) => run_layout::<f64>(case, &cfg, &TOLS_F64, &mut cnt, viols),
             (_, "f32") => run_fit::<f32>(case, &cfg, &TOLS_F32, &mut cnt, viols) && case.n_clusters >= 2,
@@ -1330,6 +1528,8 @@ fn run_case(case: &Case, viols: &mut Vec<Violation>) -> (Cnt, u64, u64) {
         "layout."
     } else if case.kind == "builder" {
         "builder."
+    } else if case.kind == "forms" {
+        "forms."
     } else if case.float == "f32" {
         "f32."
     } else {
@@ -1366,8 +1566,9 @@ fn main() {
          plus the family duplicates = {20, 60} rows that are copies of only 1..3 distinct points inside the box [5,9]x[3,7]x[4,8] (origin outside), features 1..2 (quick) / 1..3 (thorough), fitted with 1..4 components (more components than distinct points empties a component) and reg_covar {0,1e-9,1e-6,1e-3,0.1}; every member is run; \
          per successful fit the query menu = every training row, every component mean, and mean_k + t u for every component k, every u in {+-e_j} and {(+-1,..,+-1)/sqrt(d)}, t such that the Mahalanobis distance to component k is exactly s, s in {10,30,35,38,39,100,1e3,1e6} (f32: {10,12,14,16,20,25,30,38,39,100,1e3,1e6}, covering the f32 exp underflow band). \
          f32 sweep: GaussianMixtureModel<f32> on the separated / overlapping members with <= 2 features, components 1..3, both initialisers, seeds 0..3 / 0..7, reg_covar {1e-6,1e-3,0.1}, same remaining grid, same oracles with f32 tolerances (reference in f64 from the published f32 parameters and the f32-rounded data / queries). \
-         memory layouts: separated / overlapping / anisotropic members with 2..3 (quick) / 2..4 (thorough) features, k 1..3, both initialisers, seeds 0..1 / 0..3, reg_covar {1e-6,1e-3}, f64 and f32: the records given to fit and the observations given to predict / predict_proba (training rows, means, points 10 / 39 / 100 sd out) as column-major owned array, transposed view of a feature-major array, reversed-row view of a reversed copy, every-second-row view of an array whose filler rows are NaN, each compared with the standard-layout run. \
+         memory layouts: separated / overlapping / anisotropic members with 2..3 (quick) / 2..4 (thorough) features, k 1..3, both initialisers, seeds 0..1 / 0..3, reg_covar {1e-6,1e-3}, f64 and f32: the records given to fit and the observations given to predict / predict_proba (training rows, means, points 10 / 39 / 100 sd out) as column-major owned array, transposed view of a feature-major array, reversed-row view of a reversed copy, every-second-row view of an array whose filler rows are NaN, reversed-feature-axis view of a reversed copy, each compared with the standard-layout run. \
          size thresholds: members replicated to 1025 / 4097 rows (2 quick, 9 thorough incl. 2 in f32), k 2..3, both initialisers, seeds 0..1 / 0..3, reg_covar {1e-6,1e-3}, complete oracle set with every training row as a query. \
+         calling forms: separated / overlapping members (row layout r1) with 1..2 (quick) / 1..6 (thorough) features, k 1..3, both initialisers, seeds 0..1 / 0..3: predict through &array, owned array, array view, &dataset, owned dataset (without / with old targets), dataset of a view, &dataset of a view, predict_inplace into a poisoned and into a reused buffer, MultiTargetModel with one member (FromIterator, new, inplace) and with two members, each on the full query batch, a one-row and a two-row batch, every label compared with the arg-max tie set of the predict_proba row. \
          builder histories: 3 members x k 2..3 x both initialisers x seeds 0..1 / 0..5 x reg_covar {1e-3,0.1} x tolerance {1e-5,1e-2} x n_runs 3 x max_n_iterations {50,7}: the parameter set is built in all 720 orders of {with_rng, tolerance, reg_covariance, n_runs, max_n_iterations, init_method} and in 12 histories that write a decoy value first; the checked parameters must publish the configured values, and for 24 histories (with_rng at every position with the other setters ascending / descending, and the decoy histories) the fit must equal the canonical-order fit bit for bit. \
          budget ladder (outcome kind): separated / overlapping / anisotropic members with <= 2 (quick) / 3 (thorough) features, same k / init / seeds, reg_covar {1e-6,0.1}, tolerance {1e-3,1e-5}, n_runs {1,3}, max_n_iterations m in {1,2,3,5,10}: m = 1 must be Err; with n_runs = 1 an Ok at m must be reproduced bit-identically by m + 10. \
          evaluation = one fit with all its parameter and query oracles; non-trivial = the fit returned a model with >= 2 components (an Err is an accepted outcome and counted per error kind); distinct by construction of the grid.",
@@ -1489,6 +1690,37 @@ fn main() {
         }
     }
     ctx.extra("layout_catalogue_members", json!(layout_members));
+    // calling forms of predict (incl. the one-feature members)
+    let mut forms_members = Vec::new();
+    for m in &members {
+        let dm = m.data[0].len();
+        let pick = (m.family == "separated" || m.family == "overlapping") && m.id.ends_with("-r1") && (dm <= 2 || (ctx.thorough() && dm <= 6));
+        if !pick {
+            continue;
+        }
+        forms_members.push(m.id.clone());
+        for k in 1..=3usize {
+            for init in ["kmeans", "random"] {
+                for seed in 0..ctx.pick(2u64, 4u64) {
+                    cases.push(Case {
+                        dataset: m.id.clone(),
+                        family: m.family.to_string(),
+                        data: m.data.clone(),
+                        n_clusters: k,
+                        init: init.to_string(),
+                        seeds: vec![seed],
+                        reg_covars: vec![1e-3],
+                        tolerances: vec![1e-3],
+                        n_runs: vec![1],
+                        max_iters: vec![100],
+                        kind: "forms".to_string(),
+                        float: "f64".to_string(),
+                    });
+                }
+            }
+        }
+    }
+    ctx.extra("forms_catalogue_members", json!(forms_members));
     // builder histories (all values differ from the defaults 1e-3 / 1e-6 / 1 / 100 so that a reset is visible)
     for id in ["overlapping-d2-b2-r1", "separated-d1-b3-r0", "anisotropic-d3-b3-r1"] {
         let m = members.iter().find(|m| m.id == id).expect("catalogue member");
@@ -1597,7 +1829,7 @@ fn main() {
         }
     }
     ctx.extra("family_x_k_x_init_combinations_with_a_successful_fit", json!(families_ok.lock().unwrap().len()));
-    let fits_run = ["fits", "f32.fits", "ladder.fits", "layout.fits", "builder.fits"].iter().map(|k| t.0.get(*k).cloned().unwrap_or(0)).sum::<u64>();
+    let fits_run = ["fits", "f32.fits", "ladder.fits", "layout.fits", "builder.fits", "forms.fits"].iter().map(|k| t.0.get(*k).cloned().unwrap_or(0)).sum::<u64>();
     if fits_run != expected_fits {
         ctx.capped(&format!("{} of {} enumerated fits were run", fits_run, expected_fits));
     }
